@@ -498,6 +498,8 @@ def run(ctx):
     from .persist import rule_exit_persists, rule_close_writes
     rule_exit_persists(ctx, r7, ("spec hashes",))
     rule_close_writes(ctx, r7, ("spec hashes",))
+    from .persist import rule_table_ownership
+    rule_table_ownership(ctx, r7, ("spec hashes",))
     # "...or touched": `gwf touch` records the current spec of every target of the cone, also of those whose files were in order already
     from .evalhelpers import cached_witness, report_witness, touch_command_witness
     report_witness(r7, "src/gwf/plugins/touch.py::touch::hashes", "src/gwf/plugins/touch.py:1", cached_witness(ctx, "touch_command_witness", touch_command_witness),
